@@ -410,7 +410,9 @@ class Renderer:
             if self.st.comments and not self.no_comment and \
                     self.rng.random() < 0.3:
                 line += (' ' if line else '') + "' " + self.rng.choice(
-                    ['note', 'x = 1', 'PRINT "a"', 'END', ''])
+                    ['note', 'x = 1', 'PRINT "a"', 'END', '',
+                     'a\x0cPRINT "ff"', 'b\x0bEND', 'c\x1cx = 1',
+                     'd\x1dGOTO 10', 'e\x1ePRINT "rs"'])
             if self.st.end_space and self.rng.random() < 0.3:
                 line += ' '
             indent = ''
@@ -424,7 +426,8 @@ class Renderer:
         if self.st.blank_lines and self.rng.random() < self.st.blank_lines:
             if self.st.comments and self.rng.random() < 0.5:
                 self.lines.append("' " + self.rng.choice(
-                    ['comment', 'GOTO 10', '"', ': :']))
+                    ['comment', 'GOTO 10', '"', ': :',
+                     'p\x0cPRINT "ff"', 'q\x1cEND']))
             else:
                 self.lines.append('')
 
